@@ -131,6 +131,29 @@ def main():
                     same.append(len(db.t[e]) == len(pre[e]))
                     ob.verify(ex, 'error-changes-nothing:' + e, And(*same), describe, replay=rp)
         ob = chk.run(h['method'], prog, harness, bounds={'request type': h['req_type']}, setup=world.setup, max_paths=20000)
+    # ---- streaming pull: the per-request adapter runs on the streamer's reader goroutine, outside every interceptor
+    def stream_harness(ex, ob):
+        W = SVC + 'streamWrapper'
+        REQ = PB + 'StreamingPullRequest'
+        req = sym_message(ex, REQ, 'req', 1, 3, nil_ok=False)
+        first = ex.choose(2) == 1
+        w = ex.new_ptr(ex.new_struct(W, initial=req if first else None))
+
+        def describe(m):
+            return {'service': 'subscriber', 'method': 'StreamingPull (request adapter)', 'first_request': first, 'request': req_to_json(ex, m, req)}
+        try:
+            r, err = ex.call_named('(*' + W + ').adaptIn', [w, req])
+        except GoPanic as p:
+            ob.verify(ex, 'no-panic: ' + panic_site(p), False, describe)
+            return
+        ob.reached(ex)
+        if err is None:
+            fc = ex.getf(r, 'FlowControl')
+            if fc is not None:
+                ob.verify(ex, 'stream-flow-control-positive', And(ex.getf(fc, 'MaxMessages') >= 1, ex.getf(fc, 'MaxBytes') >= 1), describe)
+    if not only or 'StreamingPull' in only:
+        chk.run('StreamingPull:request-adapter', prog, stream_harness, bounds={'repeated fields': '0..3 entries each', 'integers': 'full width'},
+                setup=world.setup, max_paths=50000)
     chk.assumptions += ['handlers are entered as grpc-go enters them: non-nil request message; wire decoding and grpc-go itself are outside the claim',
                         'a blocked Pull is released by its own timeout (the waiting itself is C10)',
                         'interceptors of this code base that are plain functions in (*grpcServer).Initialize are executed around the handler (logging / prometheus / fault injection are pass-through)']
